@@ -447,3 +447,126 @@ Definition g_mem_fetch_static (self_static_intervals : list ivl) (start : option
           let out := out ++ matching in
           out)
       matching (zrange end_idx).
+
+(* calgebra/core.py: Difference._sweep *)
+Definition g_diff_sweep (fuel : nat) (source_stream : list ivl) (sub_streams : list (list ivl)) : res (list ivl) :=
+  let merged := (merge_by lt_fwd sub_streams) in
+  let subtractor_iter := merged in
+  let '(subtractor_iter, current_subtractor) :=
+    match subtractor_iter with
+    | v_ :: it_ =>
+      let current_subtractor := (Some v_) in
+      let subtractor_iter := it_ in
+        (subtractor_iter, current_subtractor)
+    | [] =>
+      let current_subtractor := None in
+      (subtractor_iter, current_subtractor)
+    end in
+  run_for_o
+    (fun '(subtractor_iter, current_subtractor) event =>
+      let out := @nil ivl in
+      match current_subtractor with
+      | Some current_subtractor =>
+        let cursor := (fstart event) in
+        let event_end := (fend event) in
+        match sub_while fuel
+            (fun '(subtractor_iter, current_subtractor) => ((negb (is_none current_subtractor)) && ((fend (oivld current_subtractor)) <? cursor)))
+            (fun '(subtractor_iter, current_subtractor) =>
+              let out := @nil ivl in
+              match subtractor_iter with
+              | v_ :: it_ =>
+                let current_subtractor := (Some v_) in
+                let subtractor_iter := it_ in
+                  (out, (subtractor_iter, current_subtractor), true)
+              | [] =>
+                let current_subtractor := None in
+                (out, (subtractor_iter, current_subtractor), true)
+              end)
+            (subtractor_iter, (Some current_subtractor)) with
+        | None => None
+        | Some (out1_, (subtractor_iter, current_subtractor)) =>
+          let out := out ++ out1_ in
+          match current_subtractor with
+          | Some current_subtractor =>
+            match sub_while fuel
+                (fun '(cursor, subtractor_iter, current_subtractor) => ((negb (is_none current_subtractor)) && ((fstart (oivld current_subtractor)) <=? event_end)))
+                (fun '(cursor, subtractor_iter, current_subtractor) =>
+                  let out := @nil ivl in
+                  let overlap_start := (Z.max cursor (fstart (oivld current_subtractor))) in
+                  let overlap_end := (Z.min event_end (fend (oivld current_subtractor))) in
+                  if (overlap_start <? overlap_end) then
+                    if (cursor <? overlap_start) then
+                      let start_val := (if (negb (cursor =? NEG_INF)) then (Some cursor) else None) in
+                      let end_val := (if (negb (overlap_start =? NEG_INF)) then (Some overlap_start) else None) in
+                      let out := out ++ [(set_span event start_val end_val)] in
+                      let cursor := overlap_end in
+                      if (cursor >=? event_end) then
+                        (out, (cursor, subtractor_iter, current_subtractor), false)
+                      else
+                        if ((fend (oivld current_subtractor)) <=? event_end) then
+                          match subtractor_iter with
+                          | v_ :: it_ =>
+                            let current_subtractor := (Some v_) in
+                            let subtractor_iter := it_ in
+                              (out, (cursor, subtractor_iter, current_subtractor), true)
+                          | [] =>
+                            let current_subtractor := None in
+                            (out, (cursor, subtractor_iter, current_subtractor), true)
+                          end
+                        else
+                          (out, (cursor, subtractor_iter, current_subtractor), false)
+                    else
+                      let cursor := overlap_end in
+                      if (cursor >=? event_end) then
+                        (out, (cursor, subtractor_iter, current_subtractor), false)
+                      else
+                        if ((fend (oivld current_subtractor)) <=? event_end) then
+                          match subtractor_iter with
+                          | v_ :: it_ =>
+                            let current_subtractor := (Some v_) in
+                            let subtractor_iter := it_ in
+                              (out, (cursor, subtractor_iter, current_subtractor), true)
+                          | [] =>
+                            let current_subtractor := None in
+                            (out, (cursor, subtractor_iter, current_subtractor), true)
+                          end
+                        else
+                          (out, (cursor, subtractor_iter, current_subtractor), false)
+                  else
+                    if ((fend (oivld current_subtractor)) <=? event_end) then
+                      match subtractor_iter with
+                      | v_ :: it_ =>
+                        let current_subtractor := (Some v_) in
+                        let subtractor_iter := it_ in
+                          (out, (cursor, subtractor_iter, current_subtractor), true)
+                      | [] =>
+                        let current_subtractor := None in
+                        (out, (cursor, subtractor_iter, current_subtractor), true)
+                      end
+                    else
+                      (out, (cursor, subtractor_iter, current_subtractor), false))
+                (cursor, subtractor_iter, (Some current_subtractor)) with
+            | None => None
+            | Some (out1_, (cursor, subtractor_iter, current_subtractor)) =>
+              let out := out ++ out1_ in
+              if (cursor <? event_end) then
+                let start_val := (if (negb (cursor =? NEG_INF)) then (Some cursor) else None) in
+                let end_val := (if (negb (event_end =? POS_INF)) then (Some event_end) else None) in
+                let out := out ++ [(set_span event start_val end_val)] in
+                Some (out, (subtractor_iter, current_subtractor), Cont)
+              else
+                Some (out, (subtractor_iter, current_subtractor), Cont)
+            end
+          | None =>
+            let out := out ++ [event] in
+            Some (out, (subtractor_iter, current_subtractor), Cont)
+          end
+        end
+      | None =>
+        let out := out ++ [event] in
+        Some (out, (subtractor_iter, current_subtractor), Cont)
+      end)
+    (fun '(subtractor_iter, current_subtractor) =>
+      let out := @nil ivl in
+      out)
+    (subtractor_iter, current_subtractor) source_stream.
